@@ -30,6 +30,8 @@ import RuxModel.Model.Dispatch
               `aw:<code>` = `c.AbortWithStatus(code)` = `c.Resp.WriteHeader(code); c.Abort()`: for the model `wh:<code>,ab`;
               `am:<code>:<msg>` = `c.AbortWithStatus(code, msg)` = `http.Error(c.Resp, msg, code); c.Abort()`: WriteHeader
               and one Write of `msg + "\n"` on `c.Resp` (response headers are not modelled): `wh:<code>,wr:<msg 0a>,ab`
+              `jp:0` / `jp:1` = `c.JSONP(200, "cb", v)` with a value that encodes / whose MarshalJSON panics: for the model
+              `ss:200,wr:"cb(",wr:<json>,wr:");"` and `ss:200,wr:"cb(",pn:s.<"mj">`
               `hj` (route handlers only: the handler hijacks the connection) and `nr:<n>` (anywhere: the handler or hook
               serves a nested request through the router while it runs) are outside the model as well: the tokens are
               dropped; a request to a route with such a handler is answered `unsupported`, and after a `use` /
@@ -167,6 +169,10 @@ def expandAbort (t : String) : List String :=
   match t.splitOn ":" with
   | ["aw", c] => ["wh:" ++ c, "ab"]
   | ["am", c, m] => ["wh:" ++ c, "wr:" ++ (if m = "-" then "" else m) ++ "0a", "ab"]
+  -- `c.JSONP(200, "cb", v)` = SetStatus(200), then the JSONP renderer on c.Resp: `cb(`, the encoding + "\n", `);`
+  -- (v = {"n":1}); with a value whose MarshalJSON panics ("mj") the helper dies after the first write
+  | ["jp", "0"] => ["ss:200", "wr:636228", "wr:7b226e223a317d0a", "wr:293b"]
+  | ["jp", "1"] => ["ss:200", "wr:636228", "pn:s.6d6a"]
   | _ => [t]
 
 def isNR (t : String) : Bool :=
